@@ -192,6 +192,11 @@ def run_history(ctx, vfs, iface, app, url_path, file_path, seq, start_frac, zone
                 if must_full and st != 200 and base == "lm" and (cur["c"] < j["c"] or cur["m"] < j["m"]):
                     # a date comparison cannot see a change that carries an EARLIER time than the copy the client holds
                     ctx.count("if-modified-since-only-after-backward-clock(not judged)")
+                elif must_full and st != 200 and base != "lm" and j["size"] == cur["size"] and j["m"] == cur["m"]:
+                    # only ctime moved: a same-size replacement that carried the old mtime over. One mechanism whatever form the tag was sent in
+                    ctx.violation("stale-304|entity-tag|same-size-and-mtime|only-ctime-changed", case,
+                                  f"step {step} {op}: the file was replaced by another of the same size with the old mtime carried over (ctime {j['c']} -> {cur['c']}); "
+                                  f"the entity tag of version {j['ver']} still revalidates for version {cur['ver']}")
                 elif must_full and st != 200:
                     why = "size-change" if j["size"] != cur["size"] else "timestamp-change"
                     sec = "same-second" if (int(j["m"]) == int(cur["m"]) and int(j["c"]) == int(cur["c"])) else "different-second"
@@ -212,7 +217,7 @@ def run_history(ctx, vfs, iface, app, url_path, file_path, seq, start_frac, zone
     return nontriv
 
 
-REGRESSION = [("adv1", "same", "back2.5", "same", "etag0"), ("back2.5", "same", "etag"), ("list-long",), ("etag-range",), ("lm-range",), ("other", "etag-range"), ("adv1", "other-keepm", "lm"), ("adv2.5", "other-keepm", "both"), ("list-empty",), ("list-comma",), ("other", "both"), ("weaklist",), ("list-last",), ("other", "lm"), ("adv1", "touch", "etag"), ("same", "adv2.5", "etag0"),
+REGRESSION = [("truncate0", "adv1", "other-keepm", "other-keepm", "list-long", "etag0"), ("adv1", "same", "back2.5", "same", "etag0"), ("back2.5", "same", "etag"), ("list-long",), ("etag-range",), ("lm-range",), ("other", "etag-range"), ("adv1", "other-keepm", "lm"), ("adv2.5", "other-keepm", "both"), ("list-empty",), ("list-comma",), ("other", "both"), ("weaklist",), ("list-last",), ("other", "lm"), ("adv1", "touch", "etag"), ("same", "adv2.5", "etag0"),
               ("other", "adv1", "other", "lm0"), ("adv0.4", "same", "both"), ("touch", "weak"), ("adv1", "same", "lm")]
 
 
